@@ -419,7 +419,8 @@ def enum_filters(seed):
     kw_sets = [("amd64",), ("~amd64",), ("~amd64", "x86"), ("-*", "~x86"), (), ("-amd64", "~x86")]
     accept_entries = [("a/b", ()), ("a/b", ("**",)), ("=a/b-1", ("~*",)), ("a/c", ("*",)), ("a/b", ("~x86",)), ("a/b", ("-~amd64", "x86"))]
     prof_kw = [(), (("a/b", ("~amd64",)),), (("=a/b-2", ("x86",)),)]
-    for default in (("amd64",), ("amd64", "~amd64")):
+    # the global ACCEPT_KEYWORDS may itself carry the wildcards ("**" in make.conf is the usual way to accept everything)
+    for default in (("amd64",), ("amd64", "~amd64"), ("amd64", "**"), ("*",), ("amd64", "~*")):
         for kws in kw_sets:
             for k in range(3):
                 for ent in itertools.combinations(accept_entries, k):
@@ -455,7 +456,7 @@ def enum_filters(seed):
                                                         f"pkg={cpv} -> {bool(got)}, reference {want} (allowed set {sorted(allowed)})"})
     return {"name": "C13.filters_on_fake_domains.bounded_enumeration",
             "bound": f"{len(lic_strings)} LICENSE strings x {len(masters)} ACCEPT_LICENSE lists x ordered selections of <= 2 of {len(entries)} package.license entries x 3 packages, each call made twice "
-                     f"on one shared ACCEPT_LICENSE list; {len(kw_sets)} KEYWORDS x stable/unstable defaults x <= 2 of {len(accept_entries)} accept_keywords entries x 3 profile package.keywords variants x 3 packages",
+                     f"on one shared ACCEPT_LICENSE list; {len(kw_sets)} KEYWORDS x 5 global ACCEPT_KEYWORDS (stable, unstable, with **, *, ~*) x <= 2 of {len(accept_entries)} accept_keywords entries x 3 profile package.keywords variants x 3 packages",
             "cases": cases, "failures": fails}
 
 
